@@ -28,6 +28,7 @@ DEFAULT_PROFILE = {
     "p_after_two": 0.15,
     "p_named_delay": 0.2,
     "p_invoke": 0.0,
+    "p_shared_invoke_id": 0.0,
     "svc_kinds": ("sync",),
     "p_on_done": 0.7,
     "p_raise": 0.10,
@@ -503,6 +504,9 @@ class MachineGen:
             plan.append({"dur": dur, "out": out, "yields": rng.randint(0, 2)})
         self.services[sname] = {"k": kind, "plan": plan}
         inv = {"src": sname, "id": f"inv_{n.key}"}
+        if p.get("p_shared_invoke_id") and self.info["invoke"] and rng.random() < p["p_shared_invoke_id"]:
+            # two different states declaring the same explicit invoke id (e.g. `loading` and `retrying` both invoke "fetch")
+            inv["id"] = rng.choice(self.info["invoke"])["id"]
         if rng.random() < 0.5:
             inv["input"] = {"k": n.key}
         tgt, re = self.pick_target(n, nodes, root)
